@@ -28,11 +28,11 @@ def contents(kind, labels="int"):
         extra = ((b,), (d,))
     elif kind == "TemporalHypergraph":
         edges = [((a, b), 0, "w1", {"k": "m1", "l": ["la", "lb"]}), ((b, c, a), 2, "w2", None),
-                 ((a, b), 5, "w3", {"j": "m2"})]
+                 ((a, b), 5, "w3", {"j": "m2"}), ((c, d), 0, "w4", None)]  # two records share time 0
         extra = ((b, d), 1)
     else:
         edges = [((a, b), "L0", "w1", {"k": "m1", "l": ["la", "lb"]}), ((b, c, a), "L1", "w2", None),
-                 ((a, b), "L1", "w3", {"j": "m2"})]
+                 ((a, b), "L1", "w3", {"j": "m2"}), ((c, d), "L0", "w4", None)]
         extra = ((b, d), "L0")
     nodes = [(a, {"k": "m3", "d": {"x": "nx", "y": ["ny1", "ny2"]}}), (b, None), (c, {"j": "m4", "c1": 1}), (d, None)]
     return nodes, edges, extra
@@ -189,7 +189,8 @@ def build_variant(kind, weighted, V, labels, variant):
         add_edge(h, kind, edges[0], V, weighted, weight=V("wx") if weighted else None, md={"other": 1})
         add_edge(h, kind, edges[1], V, weighted)
         remove_edge(h, kind, edges[0][:-2])
-        add_edge(h, kind, edges[2], V, weighted)
+        for e in edges[2:]:
+            add_edge(h, kind, e, V, weighted)
         add_edge(h, kind, edges[0], V, weighted, reverse=True)
     elif variant == "late":
         for e in edges:
